@@ -37,18 +37,21 @@ Definition from_u32_unwrap {E} (cp : N) : outcome N E :=
 Definition lead2_lo : N := 0xC0.
 Definition lead2_hi : N := 0xDF.
 
-(* match (byte0, byte1) arms of the 3-byte case *)
-Definition second3_ok (b0 b1 : N) : bool :=
-  ((b0 =? 0xE0) && in_range 0xA0 0xBF b1)
-  || (in_range 0xE1 0xEC b0 && in_range 0x80 0xBF b1)
-  || ((b0 =? 0xED) && in_range 0x80 0x9F b1)
-  || (in_range 0xEE 0xEF b0 && in_range 0x80 0xBF b1).
+(* the accepting (byte0, byte1) arms of the 3-byte and 4-byte cases:
+   (byte0 lo, byte0 hi, byte1 lo, byte1 hi) *)
+Definition second3_table : list (N * N * N * N) :=
+  [ (0xE0, 0xE0, 0xA0, 0xBF); (0xE1, 0xEC, 0x80, 0xBF); (0xED, 0xED, 0x80, 0x9F); (0xEE, 0xEF, 0x80, 0xBF) ].
+Definition second4_table : list (N * N * N * N) :=
+  [ (0xF0, 0xF0, 0x90, 0xBF); (0xF1, 0xF3, 0x80, 0xBF); (0xF4, 0xF4, 0x80, 0x8F) ].
 
-(* match (byte0, byte1) arms of the 4-byte case *)
-Definition second4_ok (b0 b1 : N) : bool :=
-  ((b0 =? 0xF0) && in_range 0x90 0xBF b1)
-  || (in_range 0xF1 0xF3 b0 && in_range 0x80 0xBF b1)
-  || ((b0 =? 0xF4) && in_range 0x80 0x8F b1).
+Definition pair_ok (tbl : list (N * N * N * N)) (b0 b1 : N) : bool :=
+  existsb (fun '(a, b, c, d) => in_range a b b0 && in_range c d b1) tbl.
+Definition second3_ok := pair_ok second3_table.
+Definition second4_ok := pair_ok second4_table.
+
+(* the four lead-byte range arms, in source order *)
+Definition lead_table : list (N * N) :=
+  [ (0x00, 0x7F); (lead2_lo, lead2_hi); (0xE0, 0xEF); (0xF0, 0xF7) ].
 
 (* fn decode_cont_char(&self, byte0) -> (usize, Option<char>)
    [rest] = self.input[self.end_pos..] (byte0 already consumed); the first
